@@ -3,7 +3,8 @@
 (* Model-checking instance of TypeCompat (mechanism A, universe export).   *)
 (*                                                                         *)
 (* Part = "pairs": one state per ordered pair of annotations of the        *)
-(*   universe (Tier = "quick": depth <= 1, "thorough": depth <= 2); the     *)
+(*   universe (Tier = "quick": depth <= 1, "thorough": depth <= 2 plus a   *)
+(*   handful of depth-3 nestings of Annotated / Array / unions); the       *)
 (*   laws of the reference relation are INVARIANTs evaluated per pair and   *)
 (*   the expected verdict of every pair is printed.                         *)
 (* Part = "pipes": one state per pipeline description (2-3 functions        *)
@@ -54,13 +55,17 @@ D2    == UNION {Un(k, Arg2) : k \in {"list", "tuple", "vtuple", "ann", "array", 
          \cup Bin("union", Arg2, {StrT})
          \cup {TVCons(ListOf(IntT), StrT), TVCons(Ann(IntT), StrT)}
 
-Universe == IF Tier = "quick" THEN D0 \cup D1 ELSE D0 \cup D1 \cup D2
+(* a few depth-3 annotations around the nesting of Annotated / Array / unions (thorough tier only) *)
+D3x   == {Ann(Opt(ArrayOf(StrT))), Ann(UnionOf(ArrayOf(IntT), StrT)), Opt(Ann(ArrayOf(IntT))),
+          ArrayOf(Ann(Opt(IntT))), ListOf(Opt(ArrayOf(IntT))), Ann(ListOf(Tup2(IntT, IntT)))}
+
+Universe == IF Tier = "quick" THEN D0 \cup D1 ELSE D0 \cup D1 \cup D2 \cup D3x
 USeq     == SetToSeq(Universe)
 N        == Len(USeq)
 Idx(A)   == CHOOSE i \in 1..N : USeq[i] = A
 
 ASSUME Part \in {"pairs", "pipes"} /\ Tier \in {"quick", "thorough"} /\ Shard \in 0..(NShards - 1)
-ASSUME \A A \in Universe : Depth(A) <= (IF Tier = "quick" THEN 1 ELSE 2)
+ASSUME \A A \in Universe : Depth(A) <= (IF Tier = "quick" THEN 1 ELSE IF A \in D3x THEN 3 ELSE 2)
 ASSUME \A A \in Universe : \A i \in DOMAIN A.a : ~HasNoAnn(A.a[i])       \* NoAnn only at the top
 ASSUME \A i \in 1..N : PrintT(<<"ANN", ToJson([i |-> i, t |-> USeq[i]])>>)
 
